@@ -97,6 +97,13 @@ theorem unpackCommand_noPanic (b : List Nat) : (unpackCommand b).isPanic = false
   dsimp only
   split <;> rfl
 
+theorem unpackCoeHeaders_noPanic (b : List Nat) : (unpackCoeHeaders b).isPanic = false := by
+  unfold unpackCoeHeaders
+  split
+  · rfl
+  · refine Res.bind_noPanic _ _ (unpackMailboxHeader_noPanic _) fun _ _ => ?_
+    exact Res.bind_noPanic _ _ (unpackService_noPanic _) fun _ _ => rfl
+
 theorem unpackHeadersRaw_noPanic (b : List Nat) : (unpackHeadersRaw b).isPanic = false := by
   unfold unpackHeadersRaw
   split
